@@ -225,10 +225,16 @@ def run_case(case, ctx):
     ops += [("list", s, None) for s in range(n)]
     ops += [("table", c, None) for c in cuts] + [("table", None, None)]
     random.Random(case["ord"]).shuffle(ops)
+    shared = {}
     for i, (op, a, b) in enumerate(ops):
         if op == "pair":
             s, t = a, b
-            if i % 3 == 0:
+            if i % 5 == 4:
+                # the documented output_dict option, with a dictionary shared by the requests of this case (filled
+                # by whatever earlier request used it, all_shortest_distances included)
+                r = M.call(net.shortest_distance, ids[s], ids[t], 1e300, shared)
+                ctx.count("pair_request_with_output_dict")
+            elif i % 3 == 0:
                 r = M.call(net.shortest_distance, nodes[s], nodes[t])
             else:
                 r = M.call(net.shortest_distance, ids[s], ids[t])
@@ -271,7 +277,13 @@ def run_case(case, ctx):
                                 "t": ids[t], "got": v, "true_distance": d, "call_index": i})
         else:
             cut = a
-            if cut is None:
+            if cut is None and i % 2 == 0:
+                tbl = M.call(net.all_shortest_distances, 1e300, shared)
+                if not M.is_raised(tbl) and tbl is not shared:
+                    return bad({"what": "all_shortest_distances did not return the dictionary it was given"})
+                if not M.is_raised(tbl):
+                    tbl = {k: v for k, v in tbl.items()}
+            elif cut is None:
                 tbl = M.call(net.all_shortest_distances)
             else:
                 tbl = M.call(net.all_shortest_distances, cut)
